@@ -634,8 +634,8 @@ func (x *Exec) slice(fr *Frame, st *State, v *ssa.Slice) Val {
 		} else {
 			x.guard(fr, st, v, "bounds:slice", sAnd(sLe("0", lo), sLe(lo, hi), sLe(hi, b.Cap)))
 		}
-		st.addIdxSeq(lo, b.Arr)
-		st.addIdxSeq(hi, b.Arr)
+		st.addIdxSeq(sAdd(b.Off, lo), b.Arr)
+		st.addIdxSeq(sAdd(b.Off, hi), b.Arr)
 		return Val{K: KSlice, T: t, Arr: b.Arr, Off: sAdd(b.Off, lo), Len: sSub(hi, lo), Cap: sSub(mx, lo)}
 	case KStr:
 		hi := x.strlen(b.S)
@@ -688,7 +688,7 @@ func (x *Exec) indexAddr(fr *Frame, st *State, v *ssa.IndexAddr) Val {
 	switch b.K {
 	case KSlice:
 		x.guard(fr, st, v, "bounds:index", sAnd(sLe("0", i.S), sLt(i.S, b.Len)))
-		st.addIdxSeq(i.S, b.Arr)
+		st.addIdxSeq(sAdd(b.Off, i.S), b.Arr)
 		et := b.T.Underlying().(*types.Slice).Elem()
 		return Val{K: KAddr, T: v.Type(), A: &Addr{Kind: AElem, Base: b.Arr, Idx: sAdd(b.Off, i.S), Key: elemKey(et), T: et}}
 	case KRef:
